@@ -93,6 +93,30 @@ func main() {
 			}
 		}
 	}
+	// pauses: shorter than the read timeout (must not be cut; both engines) and between 1x and 2x the
+	// read timeout followed by a resume (sherpa cuts the stream at the timeout; what was relayed stays a prefix)
+	if vlib.ReplayPath() == "" {
+		for _, engine := range []string{"sherpa", "olla"} {
+			for _, ct := range []string{"text/event-stream", "application/json", "application/x-ndjson"} {
+				for _, stall := range []int{60, 450} {
+					if stall > 300 && engine == "olla" {
+						continue // the olla engine's stall handling is C18's subject
+					}
+					for _, two := range []bool{false, true} {
+						sc := &scen.Scenario{Engine: engine, Balancer: "priority", Profile: "auto", Method: "POST", Path: "/olla/proxy/v1/chat/completions",
+							ReqBody: `{"stream":true}`, ReadTimeoutMs: 300}
+						e := scen.EPSpec{Name: names[0], Prio: prios[0], Beh: scen.OkBeh(names[0], 200, 90+r.Intn(60), true, ct)}
+						e.Beh.Kind, e.Beh.K, e.Beh.StallMs, e.Beh.ChunkSz = "pause", 20+r.Intn(10), stall, 15
+						sc.EPs = append(sc.EPs, e)
+						if two {
+							sc.EPs = append(sc.EPs, mkEP(1, "ok", r, true, ct))
+						}
+						scs = append(scs, sc)
+					}
+				}
+			}
+		}
+	}
 	var mu sync.Mutex
 	out := make([]*scen.Obs, len(scs))
 	scen.ParallelMap(len(scs), 16, func(i int) {
